@@ -180,7 +180,7 @@ def sched(tid, storage_kind, exec_kind, c0, c1, c2, c3, c4, c5, c6, c7, n0, n1, 
             shims.TOK.clear()
             log = tmpl.Log()
             p = tmpl.make_pipeline(t.funcs, log)
-            needs_folder = storage_kind != "dict"
+            needs_folder = True  # stored data are compared through load_outputs for every storage
             folder = L.scratch_dir() if needs_folder else None
         choices = [c0, c1, c2, c3, c4, c5, c6, c7]
         ex = SymExecutor(choices, log)
@@ -265,6 +265,8 @@ def obligations(tier):
         ("T17", "file_array", "per_output", 2),
         ("T5", "dict", "single", 2),
         ("T7p", "dict", "single", 2),
+        ("TN2", "dict", "single", 2),
+        ("TN2", "mix_file_first", "default_dict", 2),
         ("T7", "mix_file_first", "default_dict", 2),
     ]
     full = [(tid, st, ek, 2) for tid in ("T1", "T3", "T4", "T5", "T7", "T7p", "T8", "T10", "T12", "T13", "T17") for st in ("dict", "file_array", "dict_sub", "mix_file_first", "mix_sub_first") for ek in ("single", "default_dict", "per_output")]
